@@ -24,12 +24,12 @@ import (
 // time, so "the k-th resolver is blocked" is a fact, not a sleep.
 
 type CancelCase struct {
-	Query    string `json:"query"`    // index into c16Queries, as text
-	N        int    `json:"n"`        // gated resolver invocations in the query
-	CancelAt int    `json:"cancelAt"` // -1 before the call; 0..N-1 while that resolver is blocked; N after the last returned; N+1 never; N+2 racing the last gate
-	Kind     string `json:"kind"`     // cancel | deadline
-	Entry    string `json:"entry"`    // do | plan
-	Observe  []int  `json:"observe,omitempty"` // gated resolvers that watch the context and fail when it ends
+	Query    string `json:"query"`              // index into c16Queries, as text
+	N        int    `json:"n"`                  // gated resolver invocations in the query
+	CancelAt int    `json:"cancelAt"`           // -1 before the call; 0..N-1 while that resolver is blocked; N after the last returned; N+1 never; N+2 racing the last gate
+	Kind     string `json:"kind"`               // cancel | deadline
+	Entry    string `json:"entry"`              // do | plan
+	Observe  []int  `json:"observe,omitempty"`  // gated resolvers that watch the context and fail when it ends
 	StockCtx bool   `json:"stockCtx,omitempty"` // use context.WithCancel / WithDeadline instead of the harness context
 }
 
@@ -60,7 +60,8 @@ func (c *manualCtx) end(err error) {
 func c16Model() *model.Schema {
 	t := model.T
 	f := func(n, ty string) *model.FieldDef { return &model.FieldDef{Name: n, Type: t(ty)} }
-	return &model.Schema{Query: "Q", Types: []*model.TypeDef{
+	return &model.Schema{Query: "Q", Mutation: "M", Types: []*model.TypeDef{
+		{Kind: model.KObject, Name: "M", Fields: []*model.FieldDef{f("g0", "String"), f("g1", "String"), f("g2", "String"), f("o", "O"), f("free", "String")}},
 		{Kind: model.KObject, Name: "O", Fields: []*model.FieldDef{f("g", "String"), f("h", "String"), f("o", "O")}},
 		{Kind: model.KObject, Name: "Q", Fields: []*model.FieldDef{f("g0", "String"), f("g1", "String"), f("g2", "String"), f("g3", "String"), f("o", "O"), f("l", "[O]"), f("free", "String")}},
 	}}
@@ -77,6 +78,10 @@ var c16Queries = []struct {
 	{`{ o { g o { g h } } g3 }`, []string{"o/g", "o/o/g", "o/o/h", "g3"}},
 	{`{ l { g } g0 }`, []string{"l/0/g", "l/1/g", "g0"}},
 	{`{ g0 g1 g2 g3 o { g h } }`, []string{"g0", "g1", "g2", "g3", "o/g", "o/h"}},
+	// mutations: top-level fields run one after the other
+	{`mutation { g0 }`, []string{"g0"}},
+	{`mutation { g0 g1 g2 }`, []string{"g0", "g1", "g2"}},
+	{`mutation { free g0 o { g h } g1 }`, []string{"g0", "o/g", "o/h", "g1"}},
 }
 
 func libGoroutines() int {
@@ -403,6 +408,10 @@ func TestC16(t *testing.T) {
 
 // c16Doc builds the model document of one of the fixed queries (fields only).
 func c16Doc(text string) *model.Doc {
+	kind := "query"
+	if strings.HasPrefix(text, "mutation") {
+		kind, text = "mutation", strings.TrimPrefix(text, "mutation")
+	}
 	toks := strings.Fields(strings.NewReplacer("{", " { ", "}", " } ").Replace(text))
 	pos := 0
 	var parse func() []*model.Sel
@@ -420,5 +429,5 @@ func c16Doc(text string) *model.Doc {
 		pos++ // }
 		return out
 	}
-	return &model.Doc{Defs: []*model.Def{{Kind: "query", Shorthand: true, Sel: parse()}}}
+	return &model.Doc{Defs: []*model.Def{{Kind: kind, Shorthand: kind == "query", Sel: parse()}}}
 }
